@@ -73,12 +73,14 @@ def main():
         "setup_cmd": "./setup.sh",
         "hooks": {
             "guard": "TESTTOOLS_VERIF",
-            "enable": "no build step: checks import testtools from $VERIF_REPO (default /repo) in a fresh interpreter "
-            "with TESTTOOLS_VERIF=1 set; no hook commits exist yet (all observation is through doubles, generated "
-            "test bodies, injected semaphores/reactors)",
+            "enable": "no build step: checks import testtools from $VERIF_REPO (default /repo) in a fresh interpreter; "
+            "the lifecycle checks (C01-C03) additionally run the repository's own test modules under pytest with "
+            "TESTTOOLS_VERIF=1 TESTTOOLS_VERIF_TRACE=<file> and validate the recorded RunTest executions with TLC "
+            "(spec/lifecycle/RunTestObs.tla); all other observation is through doubles, generated test bodies, injected "
+            "semaphores/reactors",
             "baseline_off_cmd": "cd /repo && env -u TESTTOOLS_VERIF /venv/bin/python -m pytest -ra -q -p no:cacheprovider "
             "--timeout=900 --continue-on-collection-errors",
-            "source_commits": [],
+            "source_commits": ["85cafb7"],
             "add_only": True,
         },
         "engines": ENGINES,
